@@ -45,6 +45,12 @@ CHECKS["C18"] = (TV, "translation validation: symbolic execution (SSA->SMT, z3) 
     "panic inside a delegate) at a random statement position; the driver wraps every advance in defer/recover and logs which advance panicked with which value; "
     "the solver decides log equality between source-under-coroutine-semantics (panic unwinds into the resumer) and compiled code + real seq for all inputs within the bounds.", "§6 C18")
 
+CHECKS["C05"] = (TV, "translation validation: symbolic execution (SSA->SMT, z3) of delegating generators, plus solver-decided equality of the compiled YieldFrom form and range form",
+    "Corpus of delegating generators (YieldFrom at statement positions, in loops/switch cases, in for-init/for-post, delegates advanced by hand, empty / infinite / nested / "
+    "recursive delegates with symbolic depth, argument wrapped in an effect). Pass 1: source-under-coroutine-semantics vs compiled code with advance markers and delegate-side "
+    "effects in the log. Pass 2: inside the generated package the compiled YieldFrom form and the compiled 'for v := range it { Yield(v) }' form of the same body are run on the "
+    "same symbolic arguments and their logs asserted equal. Program dimension sampled; K advances; recursion depth <= 3 (quick).", "§6 C05")
+
 NA = {
     "C11": "compiler acceptance/buildability is decided by the compiler pipeline itself (go/packages, go/types, reflection-based AST rewriting, printer, file system); it cannot be encoded by an SSA->SMT translator and has no symbolic dimension once a program is fixed — enumeration of concrete compiler runs would be a different technique (DESIGN §7)",
     "C15": "byte-identical output across runs/configurations is a statement about repeated process runs, map iteration in the compiler and leftovers on disk; no symbolic inputs and the code is not encodable (DESIGN §7)",
